@@ -549,3 +549,10 @@ func ReportEnum(t *testing.T, sub string, c any, f *Failure) {
 	path := saveFailure(sub, render(c), f)
 	t.Errorf("VERIF-FAIL sub=%s sig=%s replay=%s\n%s", sub, f.Sig, path, f.Msg)
 }
+
+// RenderSaved renders a case in the replay file format.
+func RenderSaved(prop, sub string, c any) []byte {
+	sc := SavedCase{Property: prop, Sub: sub, Case: render(c)}
+	b, _ := json.MarshalIndent(sc, "", " ")
+	return b
+}
